@@ -817,4 +817,36 @@ def decLt (a b : Bool × Nat × Int) : Bool := ratOfDec a.1 a.2.1 a.2.2 < ratOfD
 #guard minuteOfStamp false (stampOfRow 8759) = 0
 #guard minuteOfStamp false (stampOfRow 23) = 1440
 
+/-! ## 7. Equal values of different text (round 5)
+
+Python's `==` (and `hash`, hence every `dict` / `set` / memo keyed by a value) puts `0.0` and `-0.0`, and `1`
+and `1.0`, into one class, while `str` prints them differently.  A write that looks the text of a cell up by
+its VALUE is therefore not the write of `to_file_string` (which prints every cell from the cell itself). -/
+
+/-- Python's `==` on the cells of the driver codec: numbers by their value (whatever the type and the sign
+    of zero), text by its characters, a number never equals text. -/
+def Cell.pyEq : Cell → Cell → Bool
+  | .int i, .int j => i == j
+  | .int i, .flt n m e => ((i : Int) : Rat) == ratOfDec n m e
+  | .flt n m e, .int i => ratOfDec n m e == ((i : Int) : Rat)
+  | .flt n m e, .flt n' m' e' => ratOfDec n m e == ratOfDec n' m' e'
+  | .str s, .str t => s == t
+  | _, _ => false
+
+/-- The text a per-column memo hands out for `v`: the text of the FIRST value of the column that the key
+    relation `eqv` identifies with `v` (`texts.setdefault(value, str(value))`). -/
+def memoText {Tok Val : Type} (eqv : Val → Val → Bool) (shw : Val → Tok) (col : List Val) (v : Val) : Tok :=
+  match col.find? (fun w => eqv w v) with
+  | some w => shw w
+  | none => shw v
+
+/-- A column written through such a memo. -/
+def memoCol {Tok Val : Type} (eqv : Val → Val → Bool) (shw : Val → Tok) (col : List Val) : List Tok :=
+  col.map (memoText eqv shw col)
+
+#guard Cell.pyEq (.flt true 0 0) (.flt false 0 0) && Cell.pyEq (.int 1) (.flt false 1 0) && !Cell.pyEq (.int 1) (.flt false 15 (-1))
+#guard memoCol Cell.pyEq showCell [.flt false 0 0, .flt true 0 0] = ["0.0", "0.0"]
+#guard [Cell.flt false 0 0, .flt true 0 0].map showCell = ["0.0", "-0.0"]
+#guard (parseCell 6 "-0.0") = some (.flt true 0 0) ∧ (parseCell 6 "0.0") = some (.flt false 0 0)
+
 end Epw
